@@ -22,7 +22,7 @@ theorem rcBuildFrom_eq (hash : Bytes → Nat) (script : List Reg) : ∀ (i : Nat
   | cons g gs ih =>
     intro i R h rc
     simp only [specRoutesFrom] at h
-    cases hp : parsePattern (g.groups.foldr (· ++ ·) g.path) with
+    cases hp : parsePattern (regText g) with
     | none => simp [hp] at h
     | some p =>
       cases hr : specRoutesFrom (i + 1) gs with
